@@ -19,8 +19,9 @@ from tlc import _P, must_ok, run_tlc
 from trace import validate_traces
 import pn  # noqa: F401
 
+IMPLICIT, EXPLICIT_BE, DEFLATED = "1.2.840.10008.1.2", "1.2.840.10008.1.2.2", "1.2.840.10008.1.2.1.99"
 GEN = ["FIND", "FINDREPO", "GET", "MOVE"]
-RET = ["ECHO", "STORE", "SUBSTORE", "NGET", "NSET", "NACTION", "NCREATE", "NDELETE", "NEVENT"]
+RET = ["ECHO", "STORE", "SUBSTORE", "NGET", "NSET", "NACTION", "NCREATE", "NCREATE0", "NDELETE", "NEVENT"]
 INVS = ["TypeOK", "C20_Shape", "C20_NothingAfterFinal", "C22_Sum", "C22_Monotone", "C22_Final", "Export"]
 
 
@@ -74,10 +75,15 @@ def run_group(ctx: Ctx, group: str, services=None) -> int:
         ctx.count(f"cases_{svc}", len(cases))
         for c in cases:
             sc = norm_script(c["script"])
-            o = execute(svc, sc)
-            o["id"] = len(obs) + 1
-            obs.append(o)
-            expected[o["id"]] = c
+            tss = [IMPLICIT]
+            if group != "C22" and svc not in ("GET", "MOVE", "ECHO", "STORE", "SUBSTORE", "NDELETE") and any(s["ds"] == "ds" for s in sc):
+                tss = [IMPLICIT, DEFLATED, EXPLICIT_BE] if (thorough or len(sc) <= 2) else [IMPLICIT, DEFLATED]
+            for ts in tss:
+                o = execute(svc, sc, ts)
+                o["id"] = len(obs) + 1
+                o["ts"] = ts
+                obs.append(o)
+                expected[o["id"]] = c
     if ctx.violations:
         return ctx.finish(rule="model violated its own invariants")
     verdicts = validate_traces(ctx, "Trace_Scp", obs, timeout=3000)
@@ -85,7 +91,7 @@ def run_group(ctx: Ctx, group: str, services=None) -> int:
     for o in obs:
         v = verdicts[o["id"]][col]
         ctx.traces += 1
-        key = (o["svc"], tuple((s["k"], s["st"], s["ds"], s["sub"]) for s in o["script"]))
+        key = (o["svc"], o.get("ts", ""), tuple((s["k"], s["st"], s["ds"], s["sub"]) for s in o["script"]))
         ctx.case(key, nontrivial=len(o["rsp"]) >= 2 or any(s["k"] in ("raise", "abort") or s["st"] in ("DSNO", "BAD", "DSF", "UNK") or s["ds"] in ("obj", "unenc") for s in o["script"]))
         e = expected[o["id"]]
         if proj(o["rsp"]) != proj(e["expected"]) or (o["fin"] != "final") != (e["ended"] == "aborted"):
@@ -96,14 +102,14 @@ def run_group(ctx: Ctx, group: str, services=None) -> int:
             # signature: the clause plus the shape of the handler step the failing behaviour hinges on
             steps = [(s["k"], s["st"], s["ds"]) for s in o["script"]]
             feature = _feature(o, v)
-            sig = {"clause": v, "svc": o["svc"], "feature": feature}
+            sig = {"clause": v, "svc": o["svc"], "feature": feature, "ts": o.get("ts", "")[-4:]}
             if v.startswith("C22"):
                 sig = {"clause": v, "svc": o["svc"], "first_break": _first_break(o)}
             elif v.startswith("C20"):
                 sig = {"clause": v, "svc": o["svc"], "outcome": o["fin"], "cause": _last_step(o)}
             ctx.violation(sig,
                           f"{o['svc']}: {v} on handler script {steps}: responses={[(hex(r['st']), r['step'], r['rem'], r['comp'], r['fail'], r['warn'], r['ds']) for r in o['rsp']]} fin={o['fin']} exc={o['exc']} failedlist_expected={o['failed_expected']}",
-                          {"svc": o["svc"], "script": o["script"]})
+                          {"svc": o["svc"], "script": o["script"], "ts": o.get("ts", IMPLICIT)})
     ctx.cov["drift_total"] = drift
     for o in (obs[0], obs[len(obs) // 2], obs[-1]):
         ctx.sample({"svc": o["svc"], "script": o["script"], "responses": o["rsp"], "fin": o["fin"]})
@@ -154,7 +160,7 @@ def replay(ctx: Ctx, group: str) -> int:
 
     d = json.load(open(ctx.replay_path))
     rp = d.get("replay") or {}
-    o = execute(rp["svc"], norm_script(rp["script"]))
+    o = execute(rp["svc"], norm_script(rp["script"]), rp.get("ts", IMPLICIT))
     o["id"] = 1
     verdicts = validate_traces(ctx, "Trace_Scp", [o])
     col = {"C20": 0, "C21": 1, "C22": 2}[group]
